@@ -5,7 +5,8 @@ use serde::{Deserialize, Serialize};
 use std::collections::BTreeMap;
 use url::form_urlencoded::parse as parse_query;
 
-const URL_ENCODE_SET: &AsciiSet = &CONTROLS.add(b' ').add(b'"').add(b'#').add(b'<').add(b'>');
+// '`' is not accepted by http::uri::PathAndQuery: encoded like the characters above, on the rule side and on the request side
+const URL_ENCODE_SET: &AsciiSet = &CONTROLS.add(b' ').add(b'"').add(b'#').add(b'<').add(b'>').add(b'`');
 const QUERY_ENCODE_SET: &AsciiSet = &CONTROLS.add(b' ').add(b'"').add(b'#').add(b'<').add(b'>').add(b'+');
 
 #[derive(Serialize, Deserialize, Debug, Clone, Hash)]
